@@ -307,6 +307,9 @@ def stepLine (w : World) (toks : List String) : World × String :=
     match userOf signer, coinsTok amt, resolve dst.toList with
     | some u, some cs, some _ => report w (step chain w (.bankSend u dst.toList cs))
     | _, _, _ => bad
+  | ["restrict", b] =>
+    if b == "1" then ({ w with restricted := true }, "ok")
+    else if b == "0" then ({ w with restricted := false }, "ok") else bad
   | ["price", n] =>
     match depositOf n with
     | some p => if 0 < p then ({ w with price := p }, "ok") else bad
